@@ -206,6 +206,19 @@ class WB(W):
         return cls(p, pats, al, bool(jp), st)
 
 
+class WC(W):
+    """Same class with a constant hash: every two classes collide (equality and hash are
+    still consistent, as the contract requires)."""
+
+    def __hash__(self) -> int:
+        return 7
+
+
+class WCB(WB):
+    def __hash__(self) -> int:
+        return 7
+
+
 # ---------------------------------------------------------------------------
 # statistics helpers
 
@@ -324,6 +337,21 @@ class Expand(_JsonMixin, DisjointUnionStrategy[W, Word]):
                 return tuple(word if j == i else None for j in range(len(children)))
         raise ValueError(f"{word} is not in any child of {c}")
 
+    def backward_map(self, c: W, objs, children=None):
+        """Position matters: the part must be handed back at the index of the child it
+        belongs to (a strategy may validate what it is given)."""
+        if children is None:
+            children = self.decomposition_function(c)
+        idx = [i for i, o in enumerate(objs) if o is not None]
+        if len(idx) != 1 or len(objs) != len(children):
+            raise ValueError(f"a union part tuple has exactly one entry: {objs}")
+        i = idx[0]
+        ch, o = children[i], objs[i]
+        ok = (o == ch.prefix) if ch.just_prefix else str(o).startswith(ch.prefix)
+        if not ok:
+            raise ValueError(f"{o} handed back at position {i}, which is the child {ch}")
+        yield Word(o)
+
 
 class RemovePatterns(_JsonMixin, DisjointUnionStrategy[W, Word]):
     """Inferral: remove patterns that contain another pattern (same object set)."""
@@ -344,6 +372,45 @@ class RemovePatterns(_JsonMixin, DisjointUnionStrategy[W, Word]):
 
     def formal_step(self) -> str:
         return "remove redundant patterns"
+
+    def forward_map(self, c: W, word: Word, children=None):
+        return (word,)
+
+
+class AddImpliedPattern(_JsonMixin, DisjointUnionStrategy[W, Word]):
+    """A ONE-WAY equivalence: add a pattern that is implied by the smallest pattern
+    (same object set).  is_two_way / is_reversible are False, so the rule databases
+    record a one-way edge; together with RemovePatterns (two-way, back to the parent)
+    this produces one-way edges inside equivalence classes, cycles of one-way edges and
+    two-way rules that replace one-way rules with the same labels."""
+
+    SETTINGS = ()
+
+    def __init__(self, **kw):
+        super().__init__(**kw)
+
+    def is_two_way(self, comb_class) -> bool:
+        return False
+
+    def is_reversible(self, comb_class) -> bool:
+        return False
+
+    def decomposition_function(self, c: W) -> Optional[Tuple[W, ...]]:
+        if c.just_prefix or not c.patterns:
+            return None
+        # only for irredundant pattern sets: the child is then redundant, so the strategy
+        # does not apply to it again and the universe stays finite
+        if any(q != p and q in p for p in c.patterns for q in c.patterns):
+            return None
+        p = min(c.patterns, key=lambda w: (len(w), w))
+        new = p + c.alphabet[0]
+        return (c.with_(patterns=tuple(c.patterns) + (new,)),)
+
+    def extra_parameters(self, c: W, children=None):
+        return (identity_map(c.stats),)
+
+    def formal_step(self) -> str:
+        return "add an implied pattern (one way)"
 
     def forward_map(self, c: W, word: Word, children=None):
         return (word,)
@@ -437,16 +504,29 @@ def safe_index(c: W) -> int:
 
 class RemoveFront(_JsonMixin, CartesianProductStrategy[W, Word]):
     """prefix = u·v with u safe to split off:  {u} × v·Av(...).  norm=True:
-    the atom child only keeps (restricted, merged) statistics it can contribute to."""
+    the atom child only keeps (restricted, merged) statistics it can contribute to.
+    swap=True: the second factor is the letter-swapped image of v·Av(...) (a bijective
+    product whose child carries PERMUTED statistic names, e.g. k_a -> k_b, k_b -> k_a)."""
 
-    SETTINGS = ("norm",)
+    SETTINGS = ("norm", "swap")
 
-    def __init__(self, norm: bool = False, **kw):
+    def __init__(self, norm: bool = False, swap: bool = False, **kw):
         self.norm = norm
+        self.swap = swap
         super().__init__(**kw)
+
+    def _swapped(self, c: W) -> W:
+        a, b = c.alphabet[0], c.alphabet[1]
+        return c.with_(
+            prefix=_swap_str(c.prefix, a, b),
+            patterns=tuple(_swap_str(p, a, b) for p in c.patterns),
+            stats=tuple("".join(sorted(_swap_str(s, a, b))) for s in c.stats),
+        )
 
     def decomposition_function(self, c: W) -> Optional[Tuple[W, ...]]:
         if c.just_prefix or c.is_empty():
+            return None
+        if self.swap and len(c.alphabet) < 2:
             return None
         safe = safe_index(c)
         if safe <= 0:
@@ -455,7 +535,14 @@ class RemoveFront(_JsonMixin, CartesianProductStrategy[W, Word]):
         atom = c.with_(prefix=u, just_prefix=True)
         if self.norm:
             atom = atom.with_(stats=restrict_stats(c.stats, atom.effective_letters())[0])
-        return (atom, c.with_(prefix=v))
+        rest = c.with_(prefix=v)
+        if self.norm:
+            # the second factor is normalised too: with single-letter patterns it can merge
+            # statistics although it is not an atom
+            rest = rest.with_(stats=restrict_stats(c.stats, rest.effective_letters())[0])
+        if self.swap:
+            rest = self._swapped(rest)
+        return (atom, rest)
 
     def extra_parameters(self, c: W, children=None):
         if children is None:
@@ -467,19 +554,33 @@ class RemoveFront(_JsonMixin, CartesianProductStrategy[W, Word]):
             m0 = restrict_stats(c.stats, atom.effective_letters())[1]
         else:
             m0 = identity_map(c.stats)
-        return (m0, identity_map(c.stats))
+        if self.norm:
+            plain_rest = c.with_(prefix=c.prefix[len(atom.prefix):])
+            m1 = restrict_stats(c.stats, plain_rest.effective_letters())[1]
+        else:
+            m1 = identity_map(c.stats)
+        if self.swap:
+            a, b = c.alphabet[0], c.alphabet[1]
+            m1 = {k: "k_" + "".join(sorted(_swap_str(v[2:], a, b))) for k, v in m1.items()}
+        return (m0, m1)
 
     def formal_step(self) -> str:
-        return "remove the front of the prefix"
+        return "remove the front of the prefix" + (" (rest letter-swapped)" if self.swap else "")
 
     def backward_map(self, c: W, objs, children=None):
-        yield Word(objs[0] + objs[1])
+        second = objs[1]
+        if self.swap:
+            second = _swap_str(second, c.alphabet[0], c.alphabet[1])
+        yield Word(objs[0] + second)
 
     def forward_map(self, c: W, word: Word, children=None):
         if children is None:
             children = self.decomposition_function(c)
         k = len(children[0].prefix)
-        return (Word(word[:k]), Word(word[k:]))
+        rest = word[k:]
+        if self.swap:
+            rest = _swap_str(rest, c.alphabet[0], c.alphabet[1])
+        return (Word(word[:k]), Word(rest))
 
 
 # ---------------------------------------------------------------------------
@@ -515,25 +616,39 @@ class ExpandFactory(StrategyFactory[W]):
 class RuleFactory(StrategyFactory[W]):
     """Yields ready rules: the expansion of the class itself and, for a class
     with a non-empty prefix, the expansion of the class whose prefix is one
-    letter shorter (a rule whose parent differs from the expanded class)."""
+    letter shorter (a rule whose parent differs from the expanded class).
+    foreign_first=True yields the foreign-parent rule before the class's own rule."""
+
+    def __init__(self, foreign_first: bool = False):
+        self.foreign_first = foreign_first
 
     def __call__(self, c: W):
         if c.just_prefix:
             return
-        yield Expand()(c)
-        if c.prefix:
-            parent = c.with_(prefix=c.prefix[:-1])
-            yield Expand()(parent)
+        own = Expand()(c)
+        foreign = Expand()(c.with_(prefix=c.prefix[:-1])) if c.prefix else None
+        if self.foreign_first and foreign is not None:
+            yield foreign
+            yield own
+        else:
+            yield own
+            if foreign is not None:
+                yield foreign
 
     def __str__(self) -> str:
-        return "rule factory"
+        return "rule factory" + (" (foreign parent first)" if self.foreign_first else "")
 
     def __repr__(self) -> str:
-        return "RuleFactory()"
+        return f"RuleFactory(foreign_first={self.foreign_first})"
+
+    def to_jsonable(self) -> dict:
+        d = super().to_jsonable()
+        d["foreign_first"] = self.foreign_first
+        return d
 
     @classmethod
     def from_dict(cls, d: dict) -> "RuleFactory":
-        return cls()
+        return cls(bool(d.get("foreign_first", False)))
 
 
 # ---------------------------------------------------------------------------
@@ -600,26 +715,36 @@ class WordAtom(VerificationStrategy[W, Word]):
 
 class VerifyByPrefix(VerificationStrategy[W, Word]):
     """Verifies the (non-atomic, non-empty) classes whose prefix is in `prefixes`;
-    enumerates them by brute force and offers a pack to expand them."""
+    enumerates them by brute force and offers a pack to expand them.
+    inner: the offered pack itself verifies the classes with a prefix in `inner` (nested
+    verification: expanding one verified class brings in another one).
+    via_pack: terms / objects are NOT computed by brute force but through the default
+    implementation, i.e. a nested search with the offered pack."""
 
-    def __init__(self, prefixes: Iterable[str] = ("",), ignore_parent: bool = False):
+    def __init__(self, prefixes: Iterable[str] = ("",), ignore_parent: bool = False, inner: Iterable[str] = (), via_pack: bool = False):
         self.prefixes = tuple(sorted(prefixes))
+        self.inner = tuple(sorted(inner))
+        self.via_pack = bool(via_pack)
         super().__init__(ignore_parent=ignore_parent)
 
     def verified(self, c: W) -> bool:
         return (not c.just_prefix) and (not c.is_empty()) and c.prefix in self.prefixes
 
     def formal_step(self) -> str:
-        return f"verified by prefix in {self.prefixes}"
+        return f"verified by prefix in {self.prefixes}" + (f" (inner {self.inner})" if self.inner else "")
 
     def get_terms(self, c: W, n: int):
         if not self.verified(c):
             raise StrategyDoesNotApply("not verified")
+        if self.via_pack:
+            return super().get_terms(c, n)
         return c.get_terms(n)
 
     def get_objects(self, c: W, n: int):
         if not self.verified(c):
             raise StrategyDoesNotApply("not verified")
+        if self.via_pack:
+            return super().get_objects(c, n)
         from collections import defaultdict
 
         res = defaultdict(list)
@@ -634,19 +759,30 @@ class VerifyByPrefix(VerificationStrategy[W, Word]):
         return rl.random.choice(objs)
 
     def pack(self, c: W) -> StrategyPack:
+        if self.inner:
+            return StrategyPack(
+                initial_strats=[RemoveFront()],
+                inferral_strats=[],
+                expansion_strats=[[Expand()]],
+                ver_strats=[WordAtom(), VerifyByPrefix(self.inner)],
+                name="base+inner",
+            )
         return base_pack()
 
     def to_jsonable(self) -> dict:
         d = super().to_jsonable()
         d["prefixes"] = list(self.prefixes)
+        d["inner"] = list(self.inner)
+        d["via_pack"] = self.via_pack
         return d
 
     @classmethod
     def from_dict(cls, d: dict) -> "VerifyByPrefix":
-        return cls(tuple(d["prefixes"]), ignore_parent=d.get("ignore_parent", False))
+        return cls(tuple(d["prefixes"]), ignore_parent=d.get("ignore_parent", False), inner=tuple(d.get("inner", ())), via_pack=d.get("via_pack", False))
 
     def __repr__(self) -> str:
-        return f"VerifyByPrefix({self.prefixes!r})"
+        extra = (f", inner={self.inner!r}" if self.inner else "") + (", via_pack=True" if self.via_pack else "")
+        return f"VerifyByPrefix({self.prefixes!r}{extra})"
 
     def __str__(self) -> str:
         return self.formal_step()
@@ -679,6 +815,8 @@ def make_pack(name: str) -> StrategyPack:
     for f in feats:
         if f in ("base", "norm"):
             continue
+        elif f == "rfswap":  # the product strategy hands on a letter-swapped second factor
+            initial = [RemoveFront(norm=norm, swap=True)]
         elif f == "swapped":  # initial / expansion exchanged
             initial, expansion = [Expand(norm=norm)], [[RemoveFront(norm=norm)]]
         elif f == "two":  # two expansion sets
@@ -691,6 +829,10 @@ def make_pack(name: str) -> StrategyPack:
             expansion = [[Expand(norm=norm, atom_last=True)]]
         elif f == "sym":
             symmetries = [SwapLetters()]
+        elif f == "oneway":  # one-way equivalence as an initial strategy
+            initial = initial + [AddImpliedPattern()]
+        elif f == "onewayexp":  # ... as an expansion strategy
+            expansion = [expansion[0] + [AddImpliedPattern()]] + expansion[1:]
         elif f == "inf1":
             inferral = [RemovePatterns()]
         elif f == "inf2":
@@ -701,11 +843,21 @@ def make_pack(name: str) -> StrategyPack:
             expansion = [[ExpandFactory()]]
         elif f == "rfac":
             expansion = [[RuleFactory()]]
+        elif f == "rfac2":
+            expansion = [[RuleFactory(foreign_first=True)]]
         elif f == "rfaconly":
             initial, expansion = [], [[RuleFactory()]]
         elif f.startswith("ver:"):
             prefs = tuple(p if p != "e" else "" for p in f[4:].split(",") if p != "")
             ver = [WordAtom(), VerifyByPrefix(prefs)]
+        elif f.startswith("ver2:"):  # ver2:a>ab  -- verify prefix a with a pack that verifies prefix ab
+            outer, _, inner_ = f[5:].partition(">")
+            op = tuple(p if p != "e" else "" for p in outer.split(",") if p)
+            ip = tuple(p if p != "e" else "" for p in inner_.split(",") if p)
+            ver = [WordAtom(), VerifyByPrefix(op, inner=ip)]
+        elif f.startswith("verp:"):  # verified classes are counted through their pack
+            prefs = tuple(p if p != "e" else "" for p in f[5:].split(",") if p != "")
+            ver = [WordAtom(), VerifyByPrefix(prefs, via_pack=True)]
         elif f.startswith("verfirst:"):
             prefs = tuple(p if p != "e" else "" for p in f[9:].split(",") if p != "")
             ver = [VerifyByPrefix(prefs), WordAtom()]
